@@ -136,7 +136,7 @@ func genCase(t *rapid.T) tcase {
 
 var (
 	recRT  = ev.New("c04/roundtrip", "rapid: reference 1970..2500 (era-rollover dense), delta = t-ref in [-2^31 s, 2^31 s) at ns granularity (window-edge and era-boundary dense), independent sub-second parts; oracle: 0 <= t - back <= 1 ns in integer arithmetic. Non-trivial: t and ref in different NTP eras, or delta within 2 s of a window edge; distinct by (ref, delta)")
-	recOrd = ev.New("c04/order", "rapid: two times in the window of one reference; oracle: t_a <= t_b implies back_a <= back_b; for t_a <= t_b less than 2^31 s apart the 64-bit timestamps compare the same way under Time64.Before/After (also across an era boundary); Time64FromTime independent of location. Non-trivial as c04/roundtrip for either time")
+	recOrd = ev.New("c04/order", "rapid: two times in the window of one reference; oracle: t_a <= t_b implies back_a <= back_b; for t_a <= t_b less than 2^31 s apart the 64-bit timestamps compare the same way under Time64.Before/After (also across an era boundary; at exactly 2^31 s apart the earlier one compares as before the later one, as TimeFromTime64 resolves it); Time64FromTime independent of location. Non-trivial as c04/roundtrip for either time")
 	recNs  = ev.New("c04/exhaustive-nanoseconds", "enumeration of nanosecond values 0..10^9-1 at seconds on both sides of the 2036 rollover (thorough: all 10^9, sharded; quick: every 101st starting at VERIF_SEED mod 101): ns-1 <= back.ns <= ns, back monotone; all counted non-trivial (era-boundary second)")
 	recFr  = ev.New("c04/exhaustive-fractions", "enumeration of 32-bit fractions (thorough: all 2^32, sharded; quick: every 4099th): Time64FromTime(TimeFromTime64(f)).Fraction <= f, within 5 units, nanoseconds monotone in f")
 )
@@ -202,6 +202,20 @@ func TestPropOrder(t *testing.T) {
 			if xa.Seconds > xb.Seconds {
 				ols = append(ols, "timestamps-across-era-boundary")
 			}
+		}
+		// exactly 2^31 s apart: the earlier time is the lower edge of the later one's window (the window is half-open,
+		// [-2^31 s, 2^31 s)), and TimeFromTime64 resolves it as the earlier one; the comparison has to agree
+		if rapid.IntRange(0, 15).Draw(t, "window-edge-pair") == 0 {
+			early := ta
+			late := time.Unix(early.Unix()+half, int64(early.Nanosecond())).UTC()
+			xe, xl := ntp.Time64FromTime(early), ntp.Time64FromTime(late)
+			if back := ntp.TimeFromTime64(xe, late); !back.Before(late) {
+				t.Fatalf("lower window edge: %v relative to %v converts back to %v", early, late, back)
+			}
+			if !xe.Before(xl) || !xl.After(xe) {
+				t.Fatalf("a time exactly 2^31 s before another (the lower edge of its window) does not compare as before it: %v -> %+v, %v -> %+v", early, xe, late, xl)
+			}
+			ols = append(ols, "pair-exactly-2^31s-apart")
 		}
 		loc := rapid.SampledFrom(locs).Draw(t, "loc")
 		if ntp.Time64FromTime(ta) != ntp.Time64FromTime(ta.In(loc)) {
